@@ -9,37 +9,62 @@ from hypothesis import strategies as st
 from pv.core import Sub, Violation, call, check, short
 
 ASSUMPTIONS = [
-    'trees are dict / Dict / dictattr nodes with 1-3 string keys (no "." in keys), leaves None / ints / strings / lists of ints, depth <= 4; flatten/rebuild only on trees without empty branches; '
+    'trees are dict / Dict / dictattr nodes with 1-3 string keys, leaves None / ints / strings / lists (of ints, of key-like strings, nested), depth <= 4 (a few percent: chains to depth 8 and '
+    'branches of 60-100 keys); flatten/rebuild only on trees without empty branches; '
     'in the merge check a quarter of the t trees carry empty branches (u\'s branch then merges into the empty one; an empty branch of u contributes nothing)',
-    'results are compared structurally with == on the plain-dict image (the statement does not fix which dict class new branches get)',
-    'ignore lists are [None] or [None, 0]; an ignored leaf still creates keys that did not exist (documented in items_to_tree)',
-    'table<->tree: wildcard names are distinct, key wildcards bind strings, the last pattern element is a wildcard bound to a scalar leaf or a constant leaf; rows have unique paths',
+    'keys come from one pool per case: a-d, numeric-looking strings (1, 10, 2, 01) or structured strings (a, a.b, ab, the empty string); a path holding a key with a "." is looked up by tuple / list '
+    'only (the dotted spelling of such a path is ambiguous by construction, not a defect)',
+    'results are compared structurally with == on the plain-dict image (the statement does not fix which dict class new branches get, nor whether untouched branches of the result are fresh objects)',
+    'ignore lists are [None], [None, 0], [0], ["s"], [[]] or ["s", None]; an ignored leaf still creates keys that did not exist (documented in items_to_tree)',
+    'one branch OBJECT may hang at two places of t, or in u and in t, or be u itself (the statement speaks of values; every occurrence counts as its own branch); such cases are never edited in place by the harness',
+    'several calls on the same objects (session, repeated table calls): every call is judged by the single-call oracle on the ORIGINAL content of the operands, the ignore list and the rows; '
+    'an earlier result must still equal its merge after later calls (it is what the caller holds)',
+    'in-place edits between two flatten passes are made with dict.__setitem__ / dict.__delitem__ (plain python, not pyg_base) and keep every branch non-empty',
+    'table<->tree: wildcard names are distinct, key wildcards bind strings, the last pattern element is a wildcard bound to a scalar / list leaf or a constant leaf; rows have unique paths; '
+    'leaf=True and base=dict/Dict/dictattr are passed in part of the cases (on such trees they do not change what the statement demands)',
 ]
 
 _KEYS = ['a', 'b', 'c', 'd']
-_leafv = st.one_of(st.none(), st.integers(0, 3), st.sampled_from(['s', 't']), st.lists(st.integers(0, 2), max_size=2).map(lambda v: ['lst', v]))
+_POOLS = {'abc': _KEYS, 'num': ['1', '10', '2', '01'], 'struct': ['a', 'a.b', 'ab', '']}
+_pool = st.sampled_from(['abc'] * 16 + ['num', 'num', 'struct', 'struct'])
+_lists = st.one_of(st.lists(st.integers(0, 2), max_size=2), st.lists(st.integers(0, 2), max_size=2), st.lists(st.integers(0, 2), max_size=2),
+                   st.sampled_from([['a', 'b'], ['a'], ['1', '10'], [[0], [1]], [[]], ['s', 0]]))
+_leafv = st.one_of(st.none(), st.integers(0, 3), st.sampled_from(['s', 't']), _lists.map(lambda v: ['lst', v]))
 _btype = st.sampled_from(['dict', 'dict', 'Dict', 'dictattr'])
+_IGNORES = [None, None, None, None, None, None, [None], [None], [None], [None, 0], [None, 0], [None, 0], [0], ['s'], [[]], ['s', None]]
 
 
 @st.composite
-def _tree(draw, d):
+def _tree(draw, d, keys=_KEYS):
     if d == 0:
         return ['leaf', draw(_leafv)]
     n = draw(st.integers(1, 3))
-    keys = draw(st.permutations(_KEYS))[:n]
-    kids = [draw(_tree(d - 1))] + [draw(_tree(draw(st.integers(0, d - 1)))) for _ in range(n - 1)]
+    ks = draw(st.permutations(keys))[:n]
+    kids = [draw(_tree(d - 1, keys))] + [draw(_tree(draw(st.integers(0, d - 1)), keys)) for _ in range(n - 1)]
     pos = draw(st.integers(0, n - 1))
     kids[0], kids[pos] = kids[pos], kids[0]
-    return [draw(_btype), [[k, v] for k, v in zip(keys, kids)]]
+    return [draw(_btype), [[k, v] for k, v in zip(ks, kids)]]
 
 
-_t = st.sampled_from([1, 1, 2, 2, 3, 3, 4]).flatmap(_tree)
+def _t_of(keys):
+    return st.sampled_from([1, 1, 2, 2, 3, 3, 4]).flatmap(lambda d: _tree(d, keys))
+
+
+_t = _t_of(_KEYS)
+
+
+def _cp(v):
+    return [_cp(x) for x in v] if isinstance(v, list) else v
+
+
+def _leaf(v):
+    """leaf spec -> a fresh leaf object (lists are tagged ['lst', [...]] and copied to any depth)"""
+    return _cp(v[1]) if isinstance(v, list) else v
 
 
 def build(s):
     if s[0] == 'leaf':
-        v = s[1]
-        return list(v[1]) if isinstance(v, list) else v
+        return _leaf(s[1])
     d = {k: build(x) for k, x in s[1]}
     if s[0] == 'dict':
         return d
@@ -57,8 +82,7 @@ def plain(x):
 def model(s):
     """plain-dict image straight from the spec (independent of pyg_base)"""
     if s[0] == 'leaf':
-        v = s[1]
-        return list(v[1]) if isinstance(v, list) else v
+        return _leaf(s[1])
     return {k: model(x) for k, x in s[1]}
 
 
@@ -79,58 +103,207 @@ def snapshot(x):
 
 
 def depth(s):
-    return 0 if s[0] == 'leaf' else 1 + max(depth(v) for _, v in s[1])
+    return 0 if s[0] == 'leaf' else 1 + max([depth(v) for _, v in s[1]] or [0])
+
+
+def _keys_of(s, acc=None):
+    acc = set() if acc is None else acc
+    if s[0] != 'leaf':
+        for k, v in s[1]:
+            acc.add(k)
+            _keys_of(v, acc)
+    return acc
+
+
+def _key_classes(*specs):
+    ks = set()
+    for s in specs:
+        _keys_of(s, ks)
+    ks = set(k for k in ks if not k.startswith('w') and k != 'zz')
+    cls = []
+    if ks and all(k.isdigit() for k in ks):
+        cls.append('numeric_string_keys')
+    if any('.' in k or k == '' for k in ks):
+        cls.append('structured_keys')
+    return cls
+
+
+# ----------------------------------------------------------------------------- one branch object at several places
+
+def _branch_paths(s, prefix=()):
+    """paths of the proper sub-branches of a tree spec"""
+    out = []
+    if s[0] != 'leaf':
+        for k, v in s[1]:
+            if v[0] != 'leaf':
+                out.append(list(prefix + (k,)))
+                out.extend(_branch_paths(v, prefix + (k,)))
+    return out
+
+
+def _sub(s, path):
+    for k in path:
+        s = dict((kk, v) for kk, v in s[1])[k]
+    return s
+
+
+def _put(s, k, v):
+    """the branch spec s with child k set to v (replaced in place of order, or appended)"""
+    kids = [[kk, (v if kk == k else vv)] for kk, vv in s[1]]
+    if k not in [kk for kk, _ in s[1]]:
+        kids.append([k, v])
+    return [s[0], kids]
+
+
+def _node(root, path):
+    for k in path:
+        root = dict.__getitem__(root, k)
+    return root
+
+
+def _apply_alias(objs, alias, side):
+    """makes the object at (side, dst path) THE object at (src side, src path); the generator has already made the two spec sub-trees equal, so the models need not know"""
+    for dside, dpath, sside, spath in alias:
+        if dside != side:
+            continue
+        src = _node(objs[sside], spath)
+        if not dpath:
+            objs[dside] = src
+        else:
+            dict.__setitem__(_node(objs[dside], dpath[:-1]), dpath[-1], src)
+
+
+def _twice(draw, t, keys):
+    """t with one of its sub-branches hung a second time under another top-level key -> (t, alias) or (t, [])"""
+    paths = _branch_paths(t)
+    if not paths:
+        return t, []
+    p = draw(st.sampled_from(paths))
+    k = draw(st.sampled_from([k for k in keys if k != p[0]]))
+    return _put(t, k, _cp(_sub(t, p))), [['t', [k], 't', p]]
 
 
 # ----------------------------------------------------------------------------- flatten / rebuild
 
-def run_flatten(spec):
+@st.composite
+def _flatten_case(draw):
+    pool = draw(_pool)
+    keys = _POOLS[pool]
+    t = draw(_t_of(keys))
+    shape = draw(st.sampled_from(['plain'] * 14 + ['wide', 'deep']))
+    if shape == 'wide':
+        t = _widen(draw, t)
+    elif shape == 'deep':
+        for _ in range(draw(st.integers(1, 4))):
+            t = [draw(_btype), [[draw(st.sampled_from(keys)), t]]]
+    alias, edit = [], None
+    how = draw(st.sampled_from(['none', 'none', 'none', 'edit', 'edit', 'twice']))
+    if how == 'twice':
+        t, alias = _twice(draw, t, keys)
+    elif how == 'edit':
+        edit = dict(at=draw(st.integers(0, 200)), op=draw(st.sampled_from(['set', 'add', 'del', 'graft'])), v=draw(_leafv))
+    return dict(t=t, alias=alias, edit=edit, again=draw(st.booleans()))
+
+
+def _flatten_pass(t, m, again, tag=''):
     from pyg_base import tree_items, tree_keys, tree_values, items_to_tree, tree_getitem
-    t = build(spec)
-    m = model(spec)
     snap = snapshot(t)
-    items = call('tree_items(%s)' % short(t, 150), tree_items, t)
+    items = call('tree_items(%s)%s' % (short(t, 150), tag), tree_items, t)
     exp = m_items(m)
-    check(list(items) == exp, 'tree_items(%s) = %s, expected the paths %s', t, items, exp)
+    check(list(items) == exp, 'tree_items(%s)%s = %s, expected the paths %s', t, tag, items, exp)
     keys = call('tree_keys', tree_keys, t)
-    check(list(keys) == [i[:-1] for i in exp], 'tree_keys(%s) = %s, expected %s', t, keys, [i[:-1] for i in exp])
+    check(list(keys) == [i[:-1] for i in exp], 'tree_keys(%s)%s = %s, expected %s', t, tag, keys, [i[:-1] for i in exp])
     vals = call('tree_values', tree_values, t)
-    check(list(vals) == [i[-1] for i in exp], 'tree_values(%s) = %s, expected %s', t, vals, [i[-1] for i in exp])
+    check(list(vals) == [i[-1] for i in exp], 'tree_values(%s)%s = %s, expected %s', t, tag, vals, [i[-1] for i in exp])
     back = call('items_to_tree(tree_items(t))', items_to_tree, items)
-    check(plain(back) == m, 'items_to_tree(tree_items(%s)) = %s', t, back)
+    check(plain(back) == m, 'items_to_tree(tree_items(%s))%s = %s', t, tag, back)
+    if again:       # the caller's items list handed over a second time (and with the duplicate test switched off: the paths are unique anyway)
+        check(list(items) == exp, 'items_to_tree changed the list of items it was given: now %s, was %s', items, exp)
+        back2 = call('items_to_tree(items, raise_if_duplicate = False), same items object', lambda: items_to_tree(items, raise_if_duplicate=False))
+        check(plain(back2) == m, 'items_to_tree(tree_items(%s), raise_if_duplicate = False)%s = %s on the second use of the items', t, tag, back2)
+        check(plain(back) == m, 'the first rebuilt tree changed when the items were used again: now %s, expected %s', back, m)
+        items2 = call('tree_items(t) again', tree_items, t)
+        check(list(items2) == exp, 'a second tree_items(%s)%s = %s, expected the paths %s', t, tag, items2, exp)
     for item in exp:
         path, leaf = item[:-1], item[-1]
-        for form, p in (('tuple', tuple(path)), ('list', list(path)), ('dotted', '.'.join(path))):
+        forms = [('tuple', tuple(path)), ('list', list(path))]
+        if not any('.' in k for k in path):
+            forms.append(('dotted', '.'.join(path)))
+        for form, p in forms:
             got = call('tree_getitem(%s, %r)' % (short(t, 100), p), tree_getitem, t, p)
-            check(got == leaf and type(got) is type(leaf), 'tree_getitem(%s, %r) = %s, expected the leaf %s', t, p, got, leaf)
-    check(snapshot(t) == snap, 'flattening modified the tree: now %s', t)
-    d = depth(spec)
-    return dict(nt=d >= 2, cls=['depth=%i' % d, 'leaves=%i' % min(len(exp), 6)])
+            check(got == leaf and type(got) is type(leaf), 'tree_getitem(%s, %r)%s = %s, expected the leaf %s', t, p, tag, got, leaf)
+    check(snapshot(t) == snap, 'flattening modified the tree%s: now %s', tag, t)
+    return exp
+
+
+def _edit(node, k, op, v):
+    """the caller's own in-place edit of one branch (a dict or a dict subclass), in plain python"""
+    if op == 'del' and len(node) < 2:
+        op = 'set'
+    if op == 'set':
+        dict.__setitem__(node, k, v)
+    elif op == 'add':
+        dict.__setitem__(node, 'zz', v)
+    elif op == 'graft':
+        dict.__setitem__(node, k, {'zz': v})
+    else:
+        dict.__delitem__(node, k)
+    return op
+
+
+def run_flatten(spec):
+    if isinstance(spec, list):      # the spec format of earlier replay files: the tree alone
+        spec = dict(t=spec, alias=[], edit=None, again=False)
+    ts = spec['t']
+    objs = dict(t=build(ts))
+    _apply_alias(objs, spec.get('alias') or [], 't')
+    t, m = objs['t'], model(ts)
+    exp = _flatten_pass(t, m, spec.get('again'))
+    d = depth(ts)
+    cls = ['depth=%i' % d, 'leaves=%i' % min(len(exp), 6)] + _key_classes(ts)
+    if len(m) >= 60:
+        cls.append('wide_branch_60+')
+    if spec.get('alias'):
+        cls.append('one_branch_object_at_two_places')
+    if spec.get('again'):
+        cls.append('same_items_object_twice')
+    e = spec.get('edit')
+    if e:
+        path = exp[e['at'] % len(exp)][:-1]
+        v = ['leaf', e['v']]
+        op = _edit(_node(t, path[:-1]), path[-1], e['op'], _leaf(v[1]))
+        mp = m
+        for k in path[:-1]:
+            mp = mp[k]
+        _edit(mp, path[-1], e['op'], _leaf(v[1]))
+        _flatten_pass(t, m, spec.get('again'), ' (after the caller edited the tree in place: %s at %s)' % (op, list(path)))
+        cls += ['flattened_again_after_in_place_edit', 'edit=' + op]
+    return dict(nt=d >= 2, cls=cls)
 
 
 # ----------------------------------------------------------------------------- merge
 
-def _derive(draw, s, d=0):
+def _derive(draw, s, d=0, keys=_KEYS):
     """u derived from t: per key keep / delete / replace (leaf<->branch) / recurse; plus new keys"""
     if s[0] == 'leaf':
-        return draw(st.one_of(st.just(s), _leafv.map(lambda v: ['leaf', v]), _tree(1)))
+        return draw(st.one_of(st.just(s), _leafv.map(lambda v: ['leaf', v]), _tree(1, keys)))
     out = []
     for k, v in s[1]:
         how = draw(st.sampled_from(['keep', 'drop', 'drop', 'recurse', 'recurse', 'recurse', 'leaf', 'branch']))
         if how == 'keep':
             out.append([k, v])
         elif how == 'recurse':
-            out.append([k, _derive(draw, v, d + 1)])
+            out.append([k, _derive(draw, v, d + 1, keys)])
         elif how == 'leaf':
             out.append([k, ['leaf', draw(_leafv)]])
         elif how == 'branch':
-            out.append([k, draw(_tree(draw(st.integers(1, 2))))])
-    for k in _KEYS:
+            out.append([k, draw(_tree(draw(st.integers(1, 2)), keys))])
+    for k in keys:
         if k not in [x[0] for x in s[1]] and draw(st.integers(0, 3)) == 0:
-            out.append([k, draw(_tree(draw(st.integers(0, 2))))])
+            out.append([k, draw(_tree(draw(st.integers(0, 2)), keys))])
     if not out:
-        k = draw(st.sampled_from(_KEYS))
-        out.append([k, draw(_tree(draw(st.integers(0, 1))))])
+        k = draw(st.sampled_from(keys))
+        out.append([k, draw(_tree(draw(st.integers(0, 1)), keys))])
     return [draw(_btype), out]
 
 
@@ -149,17 +322,24 @@ def _widen(draw, s):
 
 @st.composite
 def _merge_case(draw):
-    t = draw(_t)
+    keys = _POOLS[draw(_pool)]
+    t = draw(_t_of(keys))
     wide = draw(st.integers(0, 24)) == 0
     if wide:
         t = _widen(draw, t)
     if draw(st.integers(0, 3)) == 0:
         t = _with_empty(draw, t)
+    share = draw(st.sampled_from(['no'] * 13 + ['t_twice', 'u_holds', 'u_is'])) if not wide else 'no'
+    alias = []
+    if share == 't_twice':
+        t, alias = _twice(draw, t, keys)
     kind = draw(st.sampled_from(['derived', 'derived', 'derived', 'independent', 'self', 'empty']))
+    if share in ('u_holds', 'u_is') and _branch_paths(t):
+        kind = 'derived'
     if kind == 'derived':
-        u = _derive(draw, t)
+        u = _derive(draw, t, 0, keys)
     elif kind == 'independent':
-        u = draw(_t)
+        u = draw(_t_of(keys))
     elif kind == 'self':
         u = t
     else:
@@ -168,7 +348,23 @@ def _merge_case(draw):
         u = _with_empty(draw, u)       # an empty branch inside u contributes nothing: it must not wipe the branch or leaf t has at that path
     if wide and u[1] and kind not in ('self', 'empty'):
         u = [u[0], u[1] + [['w%03i' % i, ['leaf', 7]] for i in range(0, 60, 7)] + [['w500', ['leaf', 1]]]]
-    return dict(t=t, u=u, kind=kind, ignore=draw(st.sampled_from([None, None, [None], [None, 0]])), via=draw(st.sampled_from(['tree_update', 'tree_update', 'add'])))
+    paths = _branch_paths(t)
+    if share == 'u_holds' and paths:        # u carries, under some key, a branch object cut out of t
+        p = draw(st.sampled_from(paths))
+        k = draw(st.sampled_from(keys))
+        u = _put(u, k, _cp(_sub(t, p)))
+        alias = alias + [['u', [k], 't', p]]
+    elif share == 'u_is' and paths:         # u IS a branch object of t
+        p = draw(st.sampled_from(paths))
+        u = _cp(_sub(t, p))
+        kind = 'branch_of_t'
+        alias = alias + [['u', [], 't', p]]
+    return dict(t=t, u=u, kind=kind, alias=alias, ignore=draw(st.sampled_from(_IGNORES)), via=draw(st.sampled_from(['tree_update', 'tree_update', 'add'])))
+
+
+def _ign(uv, ignore):
+    return any(uv is i or (type(uv) is type(i) and uv == i) or (isinstance(uv, (int, float)) and isinstance(i, (int, float)) and not isinstance(uv, bool) and not isinstance(i, bool) and uv == i)
+               for i in ignore)
 
 
 def m_merge(t, u, ignore):
@@ -183,7 +379,7 @@ def m_merge(t, u, ignore):
             else:
                 res[k] = m_merge({}, uv, ignore)
         else:
-            if k in res and any(uv is i or (type(uv) is type(i) and uv == i) or (isinstance(uv, (int, float)) and isinstance(i, (int, float)) and not isinstance(uv, bool) and uv == i) for i in ignore):
+            if k in res and _ign(uv, ignore):
                 continue
             res[k] = uv
     return res
@@ -213,12 +409,34 @@ def _conflicts(t, u, d=1):
     return shared, lb
 
 
+def _at(m, path):
+    for k in path:
+        if not isinstance(m, dict) or k not in m:
+            return ('absent',)
+        m = m[k]
+    return m
+
+
+def _ignored_leaf(t, u, ignore):
+    """u holds, at a path where t has a leaf too, a leaf that the ignore list keeps out"""
+    for k, uv in u.items():
+        if isinstance(uv, dict):
+            if isinstance(t.get(k), dict) and _ignored_leaf(t[k], uv, ignore):
+                return True
+        elif k in t and _ign(uv, ignore):
+            return True
+    return False
+
+
 def run_merge(spec):
     from pyg_base import tree_update, Dict
     ts, us = spec['t'], spec['u']
-    t, u = build(ts), (build(us) if spec['kind'] != 'self' else None)
-    if spec['kind'] == 'self':
-        u = t
+    alias = spec.get('alias') or []
+    objs = dict(t=build(ts))
+    _apply_alias(objs, alias, 't')
+    objs['u'] = build(us) if spec['kind'] != 'self' else objs['t']
+    _apply_alias(objs, alias, 'u')
+    t, u = objs['t'], objs['u']
     mt, mu = model(ts), model(us)
     ignore = spec['ignore']
     via = spec['via']
@@ -232,7 +450,10 @@ def run_merge(spec):
     else:
         via = 'tree_update'
         what = 'tree_update(%s, %s%s)' % (short(t, 150), short(u, 150), '' if ignore is None else ', ignore=%s' % ignore)
-        res = call(what, lambda: tree_update(t, u) if ignore is None else tree_update(t, u, ignore=ignore))
+        ig = _cp(ignore)
+        res = call(what, lambda: tree_update(t, u) if ignore is None else tree_update(t, u, ignore=ig))
+    if alias:
+        what += ' [one branch object at several places: %s]' % alias
     exp = m_merge(mt, mu, ignore or [])
     check(isinstance(res, dict), '%s returned %s', what, type(res).__name__)
     check(plain(res) == exp, '%s = %s, the recursive merge is %s', what, res, exp)
@@ -240,7 +461,15 @@ def run_merge(spec):
     check(snapshot(u) == snap_u, '%s modified u: now %s (was %s)', what, plain(u), mu)
     check(res is not t, '%s returned t itself', what)
     shared, lb = _conflicts(mt, mu)
-    cls = ['kind=' + spec['kind'], 'via=' + via, 'ignore=%s' % (ignore,)]
+    cls = ['kind=' + spec['kind'], 'via=' + via, 'ignore=%s' % (ignore,)] + _key_classes(ts, us)
+    for a in alias:
+        cls.append('one_branch_object_at_two_places_of_t' if a[0] == 't' else ('u_holds_a_branch_object_of_t' if a[1] else 'u_is_a_branch_object_of_t'))
+        if a[0] == 't' and (_at(exp, a[1]) != _at(mt, a[1]) or _at(exp, a[3]) != _at(mt, a[3])):
+            cls.append('update_writes_under_a_branch_object_that_occurs_twice')
+    if ignore and _ignored_leaf(mt, mu, ignore):
+        cls.append('ignored_leaf_kept_out')
+        if ignore not in ([None], [None, 0]):
+            cls.append('ignored_leaf_kept_out_by_a_str_or_list_or_0_only_entry')
 
     def _has_empty(m):
         return isinstance(m, dict) and (not m or any(_has_empty(v) for v in m.values()))
@@ -271,6 +500,87 @@ def run_merge(spec):
     return dict(nt=bool(deep_shared or lb), cls=cls)
 
 
+# ----------------------------------------------------------------------------- several merges on the same objects
+
+@st.composite
+def _session_case(draw):
+    """three trees built ONCE (t0, and two updates derived from it or from one another), one ignore list object; 2-4 merges whose operands are those same objects or earlier results"""
+    keys = _POOLS[draw(_pool)]
+    t0 = draw(_t_of(keys))
+    if draw(st.integers(0, 3)) == 0:
+        t0 = _with_empty(draw, t0)
+    t1 = _derive(draw, t0, 0, keys)
+    t2 = _derive(draw, draw(st.sampled_from([t0, t0, t1])), 0, keys)
+    if draw(st.integers(0, 3)) == 0:
+        t2 = _with_empty(draw, t2)
+    ignore = draw(st.sampled_from(_IGNORES[4:]))
+    calls = []
+    for c in range(draw(st.integers(2, 4))):
+        res = list(range(3, 3 + c))
+        i = draw(st.sampled_from([0, 0, 0, 0, 1] + res))
+        j = draw(st.sampled_from([1, 1, 2, 2, 0] + res))
+        calls.append([i, j, draw(st.sampled_from(['tree_update', 'tree_update', 'add'])), draw(st.integers(0, 4)) > 0])
+    return dict(trees=[t0, t1, t2], ignore=ignore, calls=calls)
+
+
+def run_session(spec):
+    from pyg_base import tree_update, Dict
+    objs = [build(s) for s in spec['trees']]
+    models = [model(s) for s in spec['trees']]
+    ignore = spec['ignore']
+    ig = _cp(ignore)                # ONE list object for the whole session
+    wrapped = {}
+    watched = [(('t%i' % i), o, snapshot(o)) for i, o in enumerate(objs)]
+    results = []                    # (what, result object, expected merge)
+    used, cls = [], set()
+    for i, j, via, use_ig in spec['calls']:
+        use_ig = bool(use_ig and ignore)
+        L, R = objs[i], objs[j]
+        if via == 'add' and not use_ig:
+            if type(L) is not Dict:
+                if i not in wrapped:
+                    wrapped[i] = Dict(L)
+                    watched.append(('Dict(operand %i)' % i, wrapped[i], snapshot(wrapped[i])))
+                L = wrapped[i]
+            what = 'call %i of the session: Dict(%s) + %s' % (len(used) + 1, short(L, 120), short(R, 120))
+            res = call(what, lambda: L + R)
+        else:
+            via = 'tree_update'
+            what = 'call %i of the session: tree_update(%s, %s%s)' % (len(used) + 1, short(L, 120), short(R, 120), ', ignore=%s' % (ignore,) if use_ig else '')
+            res = call(what, lambda: tree_update(L, R, ignore=ig) if use_ig else tree_update(L, R))
+        exp = m_merge(models[i], models[j], ignore if use_ig else [])
+        hist = '' if not used else ' (earlier calls on the same objects: %s)' % used
+        check(isinstance(res, dict), '%s returned %s', what, type(res).__name__)
+        check(plain(res) == exp, '%s = %s, the recursive merge is %s%s', what, res, exp, hist)
+        check(ig == ignore, '%s changed the ignore list it was given: now %s, was %s', what, ig, ignore)
+        for name, o, snap in watched:
+            check(snapshot(o) == snap, '%s modified %s: now %s%s', what, name, plain(o), hist)
+        for w, r, e in results:
+            check(plain(r) == e, '%s changed the result of an earlier call (%s): now %s, it was the merge %s', what, w, r, e)
+        check(res is not L and res is not objs[i], '%s returned its left operand itself', what)
+        if any(u[0] == i and u[1] != j for u in used):
+            cls.add('same_left_object_other_update')
+        if any(u[0] == i and u[1] == j for u in used):
+            cls.add('same_operands_again')
+        if any(u[1] == j and u[0] != i for u in used):
+            cls.add('same_update_object_other_tree')
+        if i >= 3 or j >= 3:
+            cls.add('earlier_result_as_operand')
+        if use_ig and any(u[3] for u in used):
+            cls.add('same_ignore_list_object_again')
+        if not use_ig and ignore and any(u[3] for u in used):
+            cls.add('call_without_ignore_after_call_with')
+        if i == j:
+            cls.add('tree_with_itself')
+        used.append([i, j, via, use_ig])
+        results.append((what, res, exp))
+        watched.append(('the result of call %i' % len(used), res, snapshot(res)))
+        objs.append(res)
+        models.append(exp)
+    nt = bool(cls & {'same_left_object_other_update', 'earlier_result_as_operand'})
+    return dict(nt=nt, cls=['calls=%i' % len(used)] + sorted(cls) + _key_classes(*spec['trees']))
+
+
 # ----------------------------------------------------------------------------- table <-> tree
 
 @st.composite
@@ -289,7 +599,7 @@ def _table_case(draw):
             parts.append(draw(st.sampled_from(['k', 'v'])))      # .../%w/k/m : a fixed key, then a fixed leaf
         parts.append(draw(st.sampled_from(['m', 'f'])))          # or .../%w/m : the wildcard is followed directly by the fixed leaf
     nrows = draw(st.integers(0, 5))
-    keyv = st.sampled_from(['p', 'q', 'r'])
+    keyv = st.sampled_from(draw(st.sampled_from([['p', 'q', 'r']] * 9 + [['1', '10', '2']])))     # one time in ten the keys are numeric-looking strings
     leafv = st.one_of(st.integers(0, 5), st.sampled_from(['L', 'M']), st.none(), st.lists(st.integers(0, 3), max_size=3))     # list leaves too: [], [5], [1, 2]
     rows, seen = [], set()
     for _ in range(nrows):
@@ -303,26 +613,41 @@ def _table_case(draw):
             continue
         seen.add(path)
         rows.append(row)
-    return dict(pattern='/'.join(parts), names=names, rows=rows, const_leaf=const_leaf, as_table=draw(st.booleans()))
+    n_eff = len(rows) if const_leaf or len(names) > 1 else min(len(rows), 1)
+    if n_eff and not const_leaf and draw(st.integers(0, 7)) == 0:       # a leaf that is a list of exactly as many elements as the table has rows (what a column would look like)
+        at = draw(st.integers(0, n_eff - 1))
+        rows[at][-1] = draw(st.lists(st.integers(0, 3), min_size=n_eff, max_size=n_eff))
+    return dict(pattern='/'.join(parts), names=names, rows=rows, const_leaf=const_leaf, as_table=draw(st.booleans()),
+                leaf=draw(st.integers(0, 3)) == 0, base=draw(st.sampled_from([None, None, None, None, 'dictattr', 'dict', 'Dict'])), repeat=draw(st.integers(0, 2)) == 0)
 
 
 def run_table(spec):
+    import pyg_base
     from pyg_base import table_to_tree, tree_to_table, dictable
     pattern, names = spec['pattern'], spec['names']
-    rows = [dict(zip(names, r)) for r in spec['rows']]
-    if not spec['const_leaf'] and len(names) == 1:
-        rows = rows[:1]      # a pattern whose only wildcard is the leaf has one path
-    table = dictable(rows) if spec['as_table'] and rows else list(rows)
-    what = 'table_to_tree(None, %r, %s)' % (pattern, short(rows, 200))
-    tree = call(what, table_to_tree, None, pattern, table)
-    back = call('tree_to_table(%s, %r)' % (short(tree, 200), pattern), tree_to_table, tree, pattern)
+
+    def mk():
+        rs = [dict(zip(names, [_cp(v) for v in r])) for r in spec['rows']]
+        return rs[:1] if not spec['const_leaf'] and len(names) == 1 else rs      # a pattern whose only wildcard is the leaf has one path
+    rows, orig = mk(), mk()         # orig: the content of the rows as the caller wrote them, never handed to pyg_base
+    table = dictable(rows) if spec['as_table'] and rows else rows
+    leaf, base, repeat = bool(spec.get('leaf')), spec.get('base'), bool(spec.get('repeat'))
+    kw = {} if base is None else dict(base=dict if base == 'dict' else getattr(pyg_base, base))
+    lkw = dict(leaf=True) if leaf else {}
+    opts = ''.join(', %s = %s' % (k, getattr(v, '__name__', v)) for k, v in kw.items())
+    what = 'table_to_tree(None, %r, %s%s)' % (pattern, short(orig, 200), opts)
+
+    def ttt(x):
+        return 'tree_to_table(%s, %r%s)' % (x, pattern, ', leaf = True' if leaf else '')
+    tree = call(what, lambda: table_to_tree(None, pattern, table, **kw))
+    back = call(ttt(short(tree, 200)), lambda: tree_to_table(tree, pattern, **lkw))
 
     def ms(rs):
         return Counter(tuple(sorted((k, repr(v)) for k, v in r.items())) for r in rs)
-    check(ms(back) == ms(rows), 'tree_to_table(table_to_tree(rows)) = %s, rows were %s (pattern %r, tree %s)', back, rows, pattern, tree)
+    check(ms(back) == ms(orig), '%s = %s, rows were %s (tree %s)', ttt('table_to_tree(rows)'), back, orig, tree)
     # independent expectation of the tree itself
     exp = {}
-    for r in rows:
+    for r in orig:
         path = [r[p[1:]] if p.startswith('%') else p for p in pattern.split('/')]
         node = exp
         for k in path[:-2]:
@@ -330,29 +655,62 @@ def run_table(spec):
         node[path[-2]] = path[-1]
     check(plain(tree) == exp, '%s = %s, expected %s', what, tree, exp)
     # and the reverse direction on the tree produced that way
-    again = call('table_to_tree(None, pattern, tree_to_table(tree, pattern))', table_to_tree, None, pattern, back)
+    again = call('table_to_tree(None, pattern, tree_to_table(tree, pattern))', lambda: table_to_tree(None, pattern, back, **kw))
     check(plain(again) == plain(tree), 'table_to_tree(tree_to_table(tree)) = %s differs from the tree %s (pattern %r)', again, tree, pattern)
     if rows:
         d = call('dictable(tree, %r)' % pattern, dictable, tree, pattern)
-        check(ms(list(d)) == ms(rows), 'dictable(%s, %r) = %s, expected the rows %s', tree, pattern, list(d), rows)
+        check(ms(list(d)) == ms(orig), 'dictable(%s, %r) = %s, expected the rows %s', tree, pattern, list(d), orig)
+    if repeat:      # the same table object and the same tree object handed over a second time: judged by what the caller wrote into them
+        tree2 = call(what + ' called a second time on the same table object', lambda: table_to_tree(None, pattern, table, **kw))
+        check(plain(tree2) == exp, 'the second %s on the same table object = %s, expected %s', what, tree2, exp)
+        back2 = call(ttt(short(tree, 200)) + ' called a second time on the same tree object', lambda: tree_to_table(tree, pattern, **lkw))
+        check(ms(back2) == ms(orig), 'the second %s on the same tree object = %s, rows were %s', ttt(short(tree, 200)), back2, orig)
+        check(plain(tree) == exp, 'the tree built first changed afterwards: now %s, expected %s', tree, exp)
+        check(ms(back) == ms(orig), 'the rows returned first changed afterwards: now %s, expected %s', back, orig)
     parts = pattern.split('/')
     list_leaf = any(isinstance(r[-1], list) for r in spec['rows']) and not spec['const_leaf']
     shape = 'wild_leaf' if not spec['const_leaf'] else ('const_leaf_after_wildcard' if parts[-2].startswith('%') else 'const_leaf_after_key')
-    return dict(nt=len(rows) >= 2 and len(names) >= 2, cls=['wildcards=%i' % len(names), 'rows=%i' % min(len(rows), 3), shape] + (['list_leaf'] if list_leaf else []))
+    cls = ['wildcards=%i' % len(names), 'rows=%i' % min(len(rows), 3), shape] + (['list_leaf'] if list_leaf else [])
+    if not spec['const_leaf'] and orig and any(isinstance(r[names[-1]], list) and len(r[names[-1]]) == len(orig) for r in orig):
+        cls.append('list_leaf_as_long_as_the_table')
+        if len(orig) >= 2:
+            cls.append('list_leaf_as_long_as_a_table_of_2+_rows')
+    keyvals = [v for r in orig for n, v in r.items() if spec['const_leaf'] or n != names[-1]]
+    if keyvals and all(isinstance(v, str) and v.isdigit() for v in keyvals):
+        cls.append('numeric_string_keys')
+    if leaf:
+        cls += ['leaf=True', 'leaf=True,' + shape]
+    if base is not None:
+        cls.append('base=' + base)
+    if repeat and rows:
+        cls.append('same_table_object_twice' + ('' if spec['as_table'] else ',list_of_dicts'))
+    return dict(nt=len(rows) >= 2 and len(names) >= 2, cls=cls)
 
 
 SUBS = [
-    Sub('flatten', lambda tier: _t, run_flatten, quick=2500, thorough=15000,
-        rule='trees of depth 1-4 over dict/Dict/dictattr nodes; oracle: tree_items/keys/values equal the model paths in order, items_to_tree inverts, tree_getitem '
-             'returns every leaf by tuple/list/dotted path, tree untouched. non-trivial = depth >= 2',
-        floor=0.3),
+    Sub('flatten', lambda tier: _flatten_case(), run_flatten, quick=2500, thorough=15000,
+        rule='trees of depth 1-4 over dict/Dict/dictattr nodes (few percent: 60-100 keys in a branch, chains to depth 8, numeric-looking or structured string keys, one branch object hung at two places); '
+             'oracle: tree_items/keys/values equal the model paths in order, items_to_tree inverts (in half of the cases the same items object is used twice, the second time with raise_if_duplicate=False), tree_getitem '
+             'returns every leaf by tuple/list/dotted path, tree untouched; in a third of the cases the tree is then edited in place (set / add / delete a leaf, graft a branch) and everything is checked again on the same object. non-trivial = depth >= 2',
+        floor=0.3, class_floors={'flattened_again_after_in_place_edit': 0.09, 'same_items_object_twice': 0.09, 'one_branch_object_at_two_places': 0.025, 'numeric_string_keys': 0.03,
+                                 'structured_keys': 0.03, 'wide_branch_60+': 0.01}),
     Sub('merge', lambda tier: _merge_case(), run_merge, quick=3000, thorough=20000,
         rule='pairs (t, u) with u derived from t by keep/drop/replace leaf<->branch/recurse/add (or independent, t itself, empty), ignore lists, via tree_update or Dict + dict; '
+             'in a fifth of the cases a branch OBJECT occurs twice in t, or hangs in u and in t, or u is a branch object of t; '
              'oracle: recursive merge written from the statement on plain dicts; t and u compared by structure and node identity before/after. '
              'non-trivial = a nested branch present on both sides with differing content, or a leaf-vs-branch conflict',
-        floor=0.2, class_floors={'nested_branch_merged': 0.1, 'leaf_vs_branch': 0.05, 'via=add': 0.05, 'empty_branch_of_u_over_content_of_t': 0.01}),
+        floor=0.2, class_floors={'nested_branch_merged': 0.1, 'leaf_vs_branch': 0.05, 'via=add': 0.05, 'empty_branch_of_u_over_content_of_t': 0.01,
+                                 'one_branch_object_at_two_places_of_t': 0.014, 'update_writes_under_a_branch_object_that_occurs_twice': 0.006, 'u_holds_a_branch_object_of_t': 0.015,
+                                 'u_is_a_branch_object_of_t': 0.014, 'numeric_string_keys': 0.03, 'structured_keys': 0.03, 'ignored_leaf_kept_out_by_a_str_or_list_or_0_only_entry': 0.007}),
+    Sub('session', lambda tier: _session_case(), run_session, quick=1500, thorough=10000,
+        rule='t0 and two updates derived from it (or from one another) are built ONCE, with one ignore list object; 2-4 calls tree_update / Dict + dict whose operands are those same objects or the '
+             'results of earlier calls, mostly with t0 on the left; every call judged by the single-call merge oracle on the original content; all operands, wrapped operands and earlier '
+             'results re-inspected after every call. non-trivial = the same left object merged with two different updates, or an earlier result used as an operand',
+        floor=0.3, class_floors={'same_left_object_other_update': 0.19, 'earlier_result_as_operand': 0.13, 'same_ignore_list_object_again': 0.17, 'same_operands_again': 0.13}),
     Sub('table_tree', lambda tier: _table_case(), run_table, quick=2500, thorough=15000,
-        rule='patterns with 1-4 wildcards interleaved with constants, rows with unique paths; oracle: independent tree construction, round trip both ways as multisets, dictable(tree, pattern) agrees. '
+        rule='patterns with 1-4 wildcards interleaved with constants, rows with unique paths; oracle: independent tree construction, round trip both ways as multisets, dictable(tree, pattern) agrees; '
+             'a quarter of the cases with leaf=True, three in seven with an explicit base class, a third repeat both calls on the same table / tree objects. '
              'non-trivial = >= 2 rows and >= 2 wildcards',
-        floor=0.15, class_floors={'const_leaf_after_wildcard': 0.05, 'const_leaf_after_key': 0.05, 'list_leaf': 0.05}),
+        floor=0.15, class_floors={'const_leaf_after_wildcard': 0.05, 'const_leaf_after_key': 0.05, 'list_leaf': 0.05, 'leaf=True': 0.13, 'leaf=True,const_leaf_after_wildcard': 0.035,
+                                  'base=dict': 0.033, 'same_table_object_twice,list_of_dicts': 0.07, 'list_leaf_as_long_as_a_table_of_2+_rows': 0.023, 'numeric_string_keys': 0.017}),
 ]
